@@ -17,7 +17,7 @@ class Case:
 def _run_shard(args):
     binp, backend, seed, text, mode = args
     p = subprocess.run([binp, mode, backend], input=text, capture_output=True, text=True,
-                       env=dict(ENV, VERIF_SEED=str(seed)), timeout=3000)
+                       env=dict(ENV, VERIF_SEED=str(seed), TSS_SERVER_BIN=os.environ.get("TSS_SERVER_BIN", "")), timeout=3000)
     if p.returncode != 0:
         return None, f"harness exit {p.returncode}: {p.stderr[-2000:]}"
     impl = p.stdout
